@@ -156,7 +156,7 @@ fn p_inst(p: &P, slots: &BTreeMap<String, Name>, vars: &BTreeMap<String, T>) -> 
     }
 }
 
-pub const RULES: [(&str, &str, &str); 16] = [
+pub const RULES: [(&str, &str, &str); 18] = [
     ("slots-and-var", "(b (f $a $b) ?x)", "(b ?x (g $a $b))"),
     ("slots-and-var-under-binder", "(lam $z (b (f $z $a) ?x))", "(lam $z (b ?x (g $a $z)))"),
     ("dup", "(b ?x ?x)", "(u ?x)"),
@@ -173,6 +173,9 @@ pub const RULES: [(&str, &str, &str); 16] = [
     ("three-slots", "(t $a $b $c)", "(t $b $c $a)"),
     ("slot-and-child", "(b (f $a $b) (h $a))", "(b (h $b) (f $b $a))"),
     ("under-binder-slots", "(lam $z (f $z $a))", "(h $a)"),
+    // depth 3: a slot of the grandchild is tied to a slot of the root
+    ("deep-tie", "(b (h $a) (u (f $a $b)))", "(g $a $b)"),
+    ("deep-tie-rev", "(b (h $a) (u (f $b $a)))", "(g $b $a)"),
 ];
 
 /// companion rules: applied in the SAME apply_rewrites call, before or after the rule under test.  Each of them
@@ -366,6 +369,39 @@ fn presentations(inst: &T) -> Vec<Presentation> {
             out.push(Presentation { label: format!("replace {} by {} at {:?}", s.to_sexp(), alt.to_sexp(), p), inserts: vec![variant.clone(), s.clone()], unions: vec![(s.clone(), alt.clone())] });
         }
     }
+    // a sub-term's class ABSORBS a class that is already symmetric (the symmetry arrives through a merge, while the
+    // sub-term's class already has its parents): both orientations of the merging union
+    for p in &pos {
+        if captures(inst, p) {
+            continue;
+        }
+        let s = subterm_at(inst, p);
+        let fv: Vec<Name> = s.fv().into_iter().collect();
+        let other: Option<(T, T)> = match (s.op, fv.len()) {
+            ("f", 2) => Some((leaf("g", &[fv[0], fv[1]]), leaf("g", &[fv[1], fv[0]]))),
+            ("g", 2) => Some((leaf("f", &[fv[0], fv[1]]), leaf("f", &[fv[1], fv[0]]))),
+            (_, 2) => Some((leaf("f", &[fv[0], fv[1]]), leaf("f", &[fv[1], fv[0]]))),
+            (_, 3) if s.op != "t" => Some((leaf("t", &[fv[0], fv[1], fv[2]]), leaf("t", &[fv[1], fv[2], fv[0]]))),
+            _ => None,
+        };
+        if let Some((o, o_perm)) = other {
+            if inst.to_sexp().contains(&o.to_sexp()) || inst.to_sexp().contains(&o_perm.to_sexp()) {
+                continue;
+            }
+            out.push(Presentation { label: format!("{} absorbs the symmetric class of {} at {:?}", s.to_sexp(), o.to_sexp(), p), inserts: vec![inst.clone(), o.clone()], unions: vec![(o.clone(), o_perm.clone()), (s.clone(), o.clone())] });
+            out.push(Presentation { label: format!("{} is absorbed by the symmetric class of {} at {:?}", s.to_sexp(), o.to_sexp(), p), inserts: vec![inst.clone(), o.clone()], unions: vec![(o.clone(), o_perm.clone()), (o.clone(), s.clone())] });
+            // the instance itself is represented only THROUGH the absorbed symmetry: the permuted sub-term is inserted
+            if s.args.iter().all(|a| matches!(a, Arg::Slot(_))) && s.args.len() >= 2 {
+                let mut sp = s.clone();
+                sp.args.swap(0, 1);
+                if sp != *s {
+                    let variant = replace_at(inst, p, &sp);
+                    out.push(Presentation { label: format!("{} inserted instead of {}, whose class then absorbs the symmetric class of {} at {:?}", sp.to_sexp(), s.to_sexp(), o.to_sexp(), p), inserts: vec![variant.clone(), o.clone()], unions: vec![(o.clone(), o_perm.clone()), (sp.clone(), o.clone())] });
+                    out.push(Presentation { label: format!("{} inserted instead of {}, whose class is then absorbed by the symmetric class of {} at {:?}", sp.to_sexp(), s.to_sexp(), o.to_sexp(), p), inserts: vec![variant, o.clone()], unions: vec![(o.clone(), o_perm.clone()), (o.clone(), sp.clone())] });
+                }
+            }
+        }
+    }
     // two replacements at different positions (first alternative each)
     for i in 0..pos.len() {
         for j in (i + 1)..pos.len() {
@@ -408,10 +444,10 @@ fn run_case(rule: usize, lhs_i: &T, rhs_i: &T, pr: &Presentation, alts: &[(T, T)
         }
     }
     let lre = to_recexpr(lhs_i, nm);
-    let Some(before) = lookup_rec_expr(&lre, &eg) else {
-        // the presentation did not make the instance represented (harness expectation): out of scope
-        return Ok((None, 2));
-    };
+    // The instance IS represented by construction (it was inserted literally, or a variant was inserted whose replaced
+    // sub-terms were united with the originals).  A failing lookup here is not a reason to skip the case: the rule is
+    // applied anyway and the instance must be found, with its right side, afterwards.
+    let before = lookup_rec_expr(&lre, &eg);
     // every other renaming of the pattern's slots whose left-side instance is represented beforehand must fire too
     let alt_before: Vec<bool> = alts.iter().map(|(l, _)| lookup_rec_expr(&to_recexpr(l, nm), &eg).is_some()).collect();
     let mut rw: Vec<Rewrite<Sym>> = vec![Rewrite::new(name, lhs, rhs)];
